@@ -138,6 +138,7 @@ Section Defaults.
     else if q =? "uuid.UUID" then Some (VUuid (repeat 0%Z 16))
     else if q =? "builtins.str" then Some (VStr [])
     else if q =? "builtins.bytes" then Some (VBytes [])
+    else if q =? "builtins.bool" then Some (VBool false)
     else None.
 
   (* get_implicit_default: the type itself, else its first base (__bases__[0] is the second
